@@ -16,7 +16,7 @@ func reg(j *Judge) *Judge { judges[j.Test] = j; return j }
 
 func replayOr(t *testing.T, j *Judge) {
 	if f := os.Getenv("VERIF_REPLAY"); f != "" {
-		replayJudge(t, j, f, 5)
+		replayJudge(t, j, f, 25)
 		return
 	}
 	runJudge(t, j)
